@@ -311,12 +311,17 @@ package graph
 //@ func Sparse6Decode
 //@   requires hdrN(s, (s6prefix(s) ? 12 : 1)) <= 4096
 //@   ensures result1 != nil || (wfSparse(result0) && result0.NumberOfVertices == hdrN(s, (s6prefix(s) ? 12 : 1)))
+//@   opt splitfirst
+//@   split s6prefix(s) && g6hdrLen(s, 12) == 0 | s6prefix(s) && g6hdrLen(s, 12) == 1 | s6prefix(s) && g6hdrLen(s, 12) == 4 | s6prefix(s) && g6hdrLen(s, 12) == 8 | !s6prefix(s) && g6hdrLen(s, 1) == 0 | !s6prefix(s) && g6hdrLen(s, 1) == 1 | !s6prefix(s) && g6hdrLen(s, 1) == 4 | !s6prefix(s) && g6hdrLen(s, 1) == 8
 //@   loop 1
 //@     invariant 0 <= i && i <= len(s) && sameslice(s, (s6prefix(old(s)) ? old(s)[12:] : old(s)[1:]))
 //@     invariant forall t in 0..i: 63 <= s[t] && s[t] <= 126
 //@     decreases len(s) - i
 //@   loop 2
-//@     invariant 0 <= pos && pos <= 6 * (len(s) - i) && 0 <= v && 1 <= n && n <= 4096 && 0 <= i && i <= len(s) && sameslice(s, (s6prefix(old(s)) ? old(s)[12:] : old(s)[1:]))
+//@     invariant sameslice(s, (s6prefix(old(s)) ? old(s)[12:] : old(s)[1:])) && 0 <= i && i <= len(s)
+//@     invariant n == hdrN(old(s), (s6prefix(old(s)) ? 12 : 1))
+//@     invariant 1 <= n && n <= 4096
+//@     invariant 0 <= pos && pos <= 6 * (len(s) - i) && 0 <= v
 //@     invariant 0 <= k && k <= 13
 //@     invariant forall t in 0..len(s): 63 <= s[t] && s[t] <= 126
 //@     invariant wfSparse(g) && g.NumberOfVertices == n && fresh(g) && fresh(g.Neighbourhoods) && fresh(g.DegreeSequence) && v <= 4096 + pos
